@@ -2,6 +2,7 @@
 driven through its registration API, outcomes of every call and all
 introspection views) + monitor (independent reference registry written from
 the property text, compared on outcomes, views and probe dispatch)."""
+import functools
 import itertools
 import time
 import uuid
@@ -44,7 +45,18 @@ def conv0(text):
     return text
 
 
-HANDLERS = [make_handler(i) for i in range(3)]
+class CallableHandler:
+    """a handler that is an instance with __call__: no __name__"""
+    def __init__(self, fun):
+        self.fun = fun
+
+    def __call__(self, *args, **kwargs):
+        return self.fun(*args, **kwargs)
+
+
+# any callable can be registered: a function, a functools.partial, an object
+HANDLERS = [make_handler(0), functools.partial(make_handler(1)),
+            CallableHandler(make_handler(2))]
 HOOKS = [make_hook(i) for i in range(2)]
 EXCS = [ValueError, KeyError, TypeError]
 CODES = [404, 500, 405, 418]
